@@ -49,8 +49,10 @@ def run(ctx: Ctx):
                         "co-location of pooled pick-ups (ServicingPoolingTrip checks the previous activity only)"]
 
 
-def validator(ctx: Ctx):
-    """route_cooresponds_with_entities as a truth table over its five atoms: route empty (E), destination given (D),
+def validator(ctx: Ctx, only_start: bool = False):
+    """(only_start: C06's use — judge only "a non-empty route is accepted only if its first link starts where the vehicle is",
+    the part continuity of movement needs.)
+    route_cooresponds_with_entities as a truth table over its five atoms: route empty (E), destination given (D),
     src == dst (Q), first link starts at src (S), last link ends at dst (T).
       E and not D -> True;  E and D -> Q;  not E and not D -> S;  not E and D -> S and T."""
     fn = ctx.repo.func(ROUTE, "route_cooresponds_with_entities")
@@ -63,29 +65,48 @@ def validator(ctx: Ctx):
     import itertools
     bad = []
     n = 0
+    extras: list = []  # atoms the code consults beyond the five of the specification: free, every valuation is tried
     for e, d, q, s_, t in itertools.product([False, True], repeat=5):
-        free = {E: e, f"len({route}) == 0": e, D: d, Q: q, f"{dst} == {src}": q}
+        base = {E: e, f"len({route}) == 0": e, D: d, Q: q, f"{dst} == {src}": q}
         for f_ in S_forms:
-            free[f_] = s_
+            base[f_] = s_
         for f_ in T_forms:
-            free[f_] = t
-        free[route] = not e
-        ev = cmp.Evaluator({}, free)
-        try:
-            p = cmp.taken_path(paths, ev)
-            if p is None or p.kind != "return":
-                raise AnalysisError("route_cooresponds_with_entities: no return path for a valuation")
-            got = ev.truth(p.value)
-        except cmp.Unknown as u:
-            raise AnalysisError(f"route_cooresponds_with_entities depends on something outside its five atoms: {flow.dump(u.node)[:80]}")
+            base[f_] = t
+        base[route] = not e
         want = (True if not d else q) if e else (s_ if not d else (s_ and t))
-        n += 1
-        if got != want:
-            bad.append(({"empty": e, "dst": d, "src==dst": q, "starts_at_src": s_, "ends_at_dst": t}, got, want))
+        done = False
+        while not done:
+            done = True
+            for bits in itertools.product([False, True], repeat=len(extras)):
+                free = dict(base)
+                free.update(dict(zip(extras, bits)))
+                ev = cmp.Evaluator({}, free)
+                try:
+                    p = cmp.taken_path(paths, ev)
+                    if p is None or p.kind != "return":
+                        raise AnalysisError("route_cooresponds_with_entities: no return path for a valuation")
+                    got = ev.truth(p.value)
+                except cmp.Unknown as u:
+                    a = flow.dump(u.node)
+                    if a in extras or len(extras) >= 4:
+                        raise AnalysisError(f"route_cooresponds_with_entities depends on something outside its five atoms: {a[:80]}")
+                    extras.append(a)
+                    done = False
+                    break
+                n += 1
+                if (got and not e and not s_) if only_start else (got != want):
+                    w = {"empty": e, "dst": d, "src==dst": q, "starts_at_src": s_, "ends_at_dst": t}
+                    w.update({f"[{k[:60]}]": v for k, v in zip(extras, bits)})
+                    bad.append((w, got, want))
+    if only_start:
+        ctx.check(not bad, "D7", "GD.validator", "route_cooresponds_with_entities accepts a non-empty route only if its first link starts at the vehicle's cell (move() drives the route from its own start)",
+                  fn, why_ok=f"{n} valuations", why_bad=f"accepted although the route starts elsewhere — the vehicle jumps to the route's start: {bad[:2]}", construct="route_cooresponds:start",
+                  witness={"bad": [str(b) for b in bad[:6]]})
+        return
     ctx.check(not bad, "D2", "GD.validator", "route_cooresponds_with_entities: empty route only for no-destination or src == dst; otherwise first link starts at src and (if given) last link ends at dst",
               fn, why_ok=f"{n} valuations of the five atoms agree", why_bad=f"{len(bad)} valuations differ, e.g. {bad[:2]}", construct="route_cooresponds:table", witness={"bad": [str(b) for b in bad[:6]]})
     ctx.ok("D2", "GD.validator", "validator evaluated on all 32 valuations", fn)
-    ctx.ok("D2", "GD.validator", "validator depends on nothing but its five atoms", fn)
+    ctx.ok("D2", "GD.validator", "validator's answer is a function of its five atoms" + (f" (it also reads {extras}, which never changes the answer)" if extras else ""), fn)
 
 
 def arrival(ctx: Ctx):
